@@ -297,12 +297,33 @@ func c07R1(p *Prog, r *Report) {
 		pass = append(pass, ba.ResultEdges(1, WantTrue)...)
 		r.Check(objOf(sinfo, ba.Call.Args[1]) == tokenMap, rule, "httpproxy.ServerHandle:checks-configured-tokens", ba.Pos(), "credentials are looked up in the server's token map", "credentials are checked against something other than the configured token map")
 	}
+	// the places that hand a pending connection back (a return whose first result is not nil),
+	// whether it is built by a constructor or written as a literal
 	nPC := 0
-	for _, cs := range sh.AllCalls() {
-		if cs.Fn != nil && strings.HasPrefix(cs.Fn.Name(), "newServer") && strings.HasSuffix(cs.Fn.Name(), "PendingConn") {
-			nPC++
-			r.Check(ba != nil && sh.G.EdgeDominates(pass, cs.V), rule, "httpproxy.ServerHandle:"+cs.Fn.Name()+"-after-auth", cs.Pos(), "reached only with authentication disabled or after valid credentials", "a request is honoured without valid credentials although authentication is enabled")
+	for _, rv := range sh.Returns() {
+		rs := sh.G.V[rv].Node.(*ast.ReturnStmt)
+		if len(rs.Results) == 0 {
+			r.Fail(rule, "httpproxy.ServerHandle:bare-return", p.posStr(rs.Pos()), "undecided: bare return in ServerHandle")
+			continue
 		}
+		if tv, ok := sinfo.Types[ast.Unparen(rs.Results[0])]; ok && tv.IsNil() {
+			continue
+		}
+		nPC++
+		kind := "?"
+		if t := sinfo.TypeOf(rs.Results[0]); t != nil {
+			kind = types.TypeString(t, func(*types.Package) string { return "" })
+		}
+		if call, isCall := ast.Unparen(rs.Results[0]).(*ast.CallExpr); isCall {
+			if fn := Callee(sinfo, call); fn != nil {
+				if cf := p.CtxOfObj(fn); cf != nil && cf.Body != nil {
+					if bvs := builtTypesReturned(cf); bvs != "" {
+						kind = bvs
+					}
+				}
+			}
+		}
+		r.Check(ba != nil && sh.G.EdgeDominates(pass, rv), rule, "httpproxy.ServerHandle:"+kind+"-after-auth", p.posStr(rs.Pos()), "reached only with authentication disabled or after valid credentials", "a request is honoured without valid credentials although authentication is enabled")
 	}
 	r.Check(nPC == 2, rule, "httpproxy.ServerHandle:pending-conn-sites", p.posStr(sh.Body.Pos()), "CONNECT and non-CONNECT pending connections", fmt.Sprintf("%d pending connection constructions", nPC))
 	// 407 sent before looping
@@ -1250,4 +1271,32 @@ func c07R8(p *Prog, r *Report) {
 	}
 	r.Count("option_to_field_initialisations", n)
 	r.Floor(rule, 6)
+}
+
+// builtTypesReturned: the type of the composite literal a one-line constructor returns.
+func builtTypesReturned(cf *FuncCtx) string {
+	out := ""
+	for _, rv := range cf.Returns() {
+		rs := cf.G.V[rv].Node.(*ast.ReturnStmt)
+		if len(rs.Results) != 1 {
+			return ""
+		}
+		e := ast.Unparen(rs.Results[0])
+		if ue, ok := e.(*ast.UnaryExpr); ok && ue.Op == token.AND {
+			e = ast.Unparen(ue.X)
+		}
+		if _, ok := e.(*ast.CompositeLit); !ok {
+			return ""
+		}
+		t := cf.Info().TypeOf(rs.Results[0])
+		if t == nil {
+			return ""
+		}
+		s := types.TypeString(t, func(*types.Package) string { return "" })
+		if out != "" && out != s {
+			return ""
+		}
+		out = s
+	}
+	return out
 }
